@@ -11,6 +11,7 @@ import PybtexModel.Lemmas.TeXStringU
 import PybtexModel.Lemmas.TeXSplit
 import PybtexModel.Lemmas.TeXSplitFirst
 import PybtexModel.Model.Width
+import PybtexModel.Lemmas.WidthPass
 
 namespace Pybtex.Props
 open Pybtex Spec TeXU
@@ -860,7 +861,7 @@ theorem C12_abbreviate_spec_nonvacuous :
 theorem C12_width_plain (w : Char → Int) (s : Str) (hs : ∀ c ∈ s, c ≠ '{' ∧ c ≠ '}') :
     bibtexWidth w s = some (s.map w).sum := by
   rw [bibtexWidth, scan, scanM_plain s 0 hs]
-  exact congrArg some (width_plain_toks w s 0 (Or.inl (by decide)))
+  exact congrArg some (width_plain_toks w s 0 (fun c hc => (hs c hc).1) false (Or.inl rfl))
 
 theorem C12_width_plain_nonvacuous :
     (∀ c ∈ "abc".toList, c ≠ '{' ∧ c ≠ '}') ∧ bibtexWidthStd "abc".toList = some 1500 := ⟨by simp, by decide +kernel⟩
@@ -875,17 +876,49 @@ theorem C12_width_special (w : Char → Int) (body r : Str) (hb : balanced body 
   cases scan r with
   | none => rfl
   | some t =>
-    simp only [Option.map_some, Option.some.injEq, List.foldl_cons]
-    rw [foldl_width_acc]
-    have h1 : widthTok w (['{'], 1) = w '{' := by simp [widthTok, startsWithBackslash]
-    have h2 : widthTok w ('\\' :: body, 1) = specialWidth w body - 1000 := by
+    simp only [Option.map_some, Option.some.injEq, widthToks]
+    have h1 : widthTok w false (['{'], 1) = w '{' := by simp [widthTok, startsWithBackslash]
+    have h2 : widthTok w true ('\\' :: body, 1) = specialWidth w body - 1000 := by
       simp [widthTok, startsWithBackslash, specialWidth]
-    have h3 : widthTok w (['}'], 0) = w '}' := by simp [widthTok]
-    rw [h1, h2, h3]
+    have h3 : ∀ b, widthTok w b (['}'], 0) = w '}' := by intro b; simp [widthTok]
+    have f3 : decide (((['}'], 0) : Tok) = (['{'], 1)) = false := by simp
+    rw [decide_true, h1, h2, h3, f3]
     omega
 
 theorem C12_width_special_nonvacuous :
     balanced "'c{d}".toList = true ∧ maxDepth 1 "'c{d}".toList ≤ maxLevel ∧
       bibtexWidthStd "ab{\\'c{d}}".toList = some 2056 := by decide +kernel
+
+/-- **`bibtex_width` without the scanner.**  On every string within the nesting limit `bibtex_width`
+is the one-pass width `Spec.widthOnePass` (`Spec/TeXString.lean`: a brace counter and nothing else):
+outside a special character EVERY character adds its own width — braces and backslashes included,
+at any brace level; a special character is a `{` at brace level 0 immediately followed by a
+backslash, up to the matching `}` or the end of the string, and nothing else (after the repair
+C03-2 a backslash further inside an ordinary group is an ordinary character).  What the TEXT of a
+special character adds is pybtex's rule (every character behind the backslash and the character
+after it, braces excepted; recorded finding `C03-width-special-char-contents`), stated inside
+`widthPass`. -/
+theorem C12_width_onepass (w : Char → Int) (s : Str) (hd : maxDepth 0 s ≤ maxLevel) :
+    bibtexWidth w s = some (Spec.widthOnePass w s) := by
+  obtain ⟨toks, ht⟩ := Option.isSome_iff_exists.1 ((C12_scan_total s).2 hd)
+  exact WidthPass.bibtexWidth_eq_onePass w ht
+
+/-- **"This function takes the literal literally".**  A string without special character (no `{` at
+brace level 0 is immediately followed by a backslash: `Spec.noSpecial`) has the width of its
+characters, whatever they are: braces, backslashes, groups nested to any depth within the limit. -/
+theorem C12_width_literal (w : Char → Int) (s : Str) (hd : maxDepth 0 s ≤ maxLevel)
+    (hn : Spec.noSpecial s = true) :
+    bibtexWidth w s = some (s.map w).sum := by
+  rw [C12_width_onepass w s hd, Spec.widthOnePass, WidthPass.widthPass_noSpecial w s 0 hn]
+
+/-- the strings of the repaired defect: `{x\y}` is an ordinary group, its five characters count
+(500 + 528 + 500 + 528 + 500); a special character in front or behind keeps its own rule -/
+theorem C12_width_literal_nonvacuous :
+    maxDepth 0 "{x\\y}".toList ≤ maxLevel ∧ Spec.noSpecial "{x\\y}".toList = true ∧
+    bibtexWidthStd "{x\\y}".toList = some 2556 ∧ bibtexWidthStd "{xy}".toList = some 2056 ∧
+    bibtexWidthStd "a{x\\y}b".toList = some 3612 ∧ bibtexWidthStd "{x{\\y}}".toList = some 3556 ∧
+    Spec.noSpecial "{\\'c}".toList = false ∧ bibtexWidthStd "{\\'c}{x\\y}".toList = some 3000 ∧
+    Spec.widthOnePass widthOf "ab{\\'c{d}}".toList = 2056 ∧ Spec.widthOnePass widthOf "ab{\\'c{".toList = 1500 := by
+  decide +kernel
 
 end Pybtex.Props
